@@ -67,6 +67,15 @@ def run_session(P, seq, config, max_checks, with_optional=False, with_worker=Fal
     holder = {}
     steps = []
     tmpdir = tempfile.mkdtemp(prefix="c13_")
+    try:
+        return _run_session_in(tmpdir, P, pb, tis, cfg, config, seq, max_checks, holder, steps)
+    finally:
+        # (also when the explorer abandons the path: every re-execution gets a directory of its own)
+        import shutil
+        shutil.rmtree(tmpdir, ignore_errors=True)
+
+
+def _run_session_in(tmpdir, P, pb, tis, cfg, config, seq, max_checks, holder, steps):
     with warnings.catch_warnings():
         warnings.simplefilter("ignore")
         with stubs.stubbed(P.ex, max_checks=max_checks, holder=holder, core_mode="all") as (solvers, proxy):
@@ -100,9 +109,6 @@ def run_session(P, seq, config, max_checks, with_optional=False, with_worker=Fal
                 rec["model_after"] = solver._model
                 rec["objectives"] = list(stub.objectives) if stub else []
                 steps.append(rec)
-    for f in os.listdir(tmpdir):
-        os.unlink(os.path.join(tmpdir, f))
-    os.rmdir(tmpdir)
     return Ctx(problem=pb, tis=tis, solver=solver, steps=steps, cfg=cfg, config=config, seq=seq)
 
 
